@@ -56,6 +56,9 @@ pub const REISSUE_LIMIT: usize = 64;
 
 #[derive(Default)]
 pub struct State {
+    /// panic (`ReissuePanic`) once more than this many calls were intercepted since `plan()`
+    /// (0 = no limit): turns a loop that issues system calls for ever into a reportable failure
+    pub call_limit: usize,
     pub logging: bool,
     pub log: Vec<Call>,
     pub rules: Vec<(Rule, usize /*fired*/)>,
@@ -152,7 +155,13 @@ pub fn plan(rules: Vec<Rule>) {
         s.seen_total = 0;
         s.forced_count = 0;
         s.map_refusals = 0;
+        s.call_limit = 0;
     });
+}
+
+/// See `State::call_limit`; reset by the next `plan()` / `clear_plan()`.
+pub fn set_call_limit(n: usize) {
+    with_state(|s| s.call_limit = n);
 }
 
 pub fn clear_plan() {
@@ -275,6 +284,12 @@ unsafe fn dispatch_slow(st: &mut State, n: usize, mut args: [usize; 6], nargs: u
         }
     }
     if let Some(served) = overflow {
+        st.busy = false;
+        std::panic::panic_any(ReissuePanic { nr: n, served });
+    }
+    if st.call_limit != 0 && st.seen_total > st.call_limit {
+        let served = st.seen_total;
+        st.call_limit = 0;
         st.busy = false;
         std::panic::panic_any(ReissuePanic { nr: n, served });
     }
